@@ -12,6 +12,10 @@ import AmVerif.Proofs.Marks
   query `insertQuery` (`InsertQuery::resolve`) and `localMark` (`TransactionInner::mark`).  The
   correspondence run compares all three reads at every index, the ops of every `mark`/`unmark`/
   `splice_text` call, under four encodings, at present and at past heads: 0 disagreements.
+  The model follows the code AFTER the fixes d5de6e0cf (`mark` resolves both anchors before inserting),
+  3682104bd (`get_marks` indexes by encoding units) and 8df66ac40 (mark index rewritten when an unused
+  actor is removed); before them the agreement clause was false under UTF-8/UTF-16 (finding D20) and a
+  failing `mark` left an op behind (D5) — the former witnesses are now positive examples.
 -/
 namespace AmVerif.Props.C25
 open AmVerif AmVerif.Crdt
@@ -46,33 +50,37 @@ example : ((([Item.mbegin ⟨5, [1]⟩ ⟨[0x62], .bool true⟩, Item.mbegin ⟨
     Item.mbegin ⟨6, [2]⟩ ⟨[0x69], .int 1⟩, Item.mend ⟨7, [2]⟩] : List Item).foldl Msm.step {}).current
     = [([0x62], .bool false)]) := by decide
 
-/-- C25, value at a position as `get_marks` reports it: for the k-th element of the text, `get_marks(k)`
-    is the state machine's cache after the mark ops that precede the element in document order, without
-    the null ("unmarked") entries — together with `C25_msm_current_is_top`: per name the value of the
-    greatest-id begin whose end has not been passed, null meaning unmarked. -/
-theorem C25_value (ops : List Op) (obj : ObjId) (pre post : List Item) (e : OpId) (t : Op)
-    (h : items ops obj = pre ++ .elem e t :: post) :
-    getMarksAt ops obj (countElems pre) = ((pre.foldl Msm.step {}).current).withoutUnmarks ∧
-    ∀ p, p ∈ getMarksAt ops obj (countElems pre) ↔ (p ∈ (pre.foldl Msm.step {}).current ∧ p.2 ≠ .null) := by
-  have h1 : getMarksAt ops obj (countElems pre) = ((pre.foldl Msm.step {}).current).withoutUnmarks := by
-    unfold getMarksAt; rw [h]; exact getMarksGo_split pre e t post {}
-  refine ⟨h1, ?_⟩
+/-- C25, value at a position as `get_marks` reports it: for every unit index `i` inside the unit range of
+    an element (`units before it ≤ i < units before it + its width`), `get_marks(i)` is the state
+    machine's cache after the mark ops that precede the element in document order, without the null
+    ("unmarked") entries — together with `C25_msm_current_is_top`: per name the value of the greatest-id
+    begin whose end has not been passed, null meaning unmarked. -/
+theorem C25_value (wf : Op → Nat) (ops : List Op) (obj : ObjId) (pre post : List Item) (e : OpId) (t : Op) (i : Nat)
+    (h : items ops obj = pre ++ .elem e t :: post)
+    (h1 : itemsWidth wf pre ≤ i) (h2 : i < itemsWidth wf pre + wf t) :
+    getMarksAt wf ops obj i = ((pre.foldl Msm.step {}).current).withoutUnmarks ∧
+    ∀ p, p ∈ getMarksAt wf ops obj i ↔ (p ∈ (pre.foldl Msm.step {}).current ∧ p.2 ≠ .null) := by
+  have h0 : getMarksAt wf ops obj i = ((pre.foldl Msm.step {}).current).withoutUnmarks := by
+    unfold getMarksAt; rw [h]
+    exact getMarksGo_split wf pre e t post {} i 0 (by omega) (by omega)
+  refine ⟨h0, ?_⟩
   intro p
-  rw [h1]
+  rw [h0]
   simp [MarkSet.withoutUnmarks, List.mem_filter]
 
 /-- C25, "marks(), get_marks(i) and spans() report this same marking" — PARTIAL: proved for `get_marks`
-    and `spans` (the span that receives the k-th element's text carries exactly `get_marks(k)`), with
-    `k` the element ORDINAL.  Missing: (1) the same for `marks()` (its accumulator merges ranges; the
-    run compares it at every position instead), (2) `i` as a unit index — false, see
-    `C25_marks_agree_refuted`. -/
-theorem C25_marks_agree_partial (W : Bytes → Nat) (ops : List Op) (obj : ObjId) (pre post : List Item) (e : OpId) (t : Op)
-    (h : items ops obj = pre ++ .elem e t :: post) (hb : t.isBlock = false) :
+    and `spans`: for every unit index `i` of an element, the span that receives that element's text
+    carries exactly `get_marks(i)`.  Missing: the same for `marks()` (its accumulator merges ranges; the
+    run compares it with the other two at every unit position instead: 0 differences after the fixes). -/
+theorem C25_marks_agree_partial (wf : Op → Nat) (W : Bytes → Nat) (ops : List Op) (obj : ObjId)
+    (pre post : List Item) (e : OpId) (t : Op) (i : Nat)
+    (h : items ops obj = pre ++ .elem e t :: post) (hb : t.isBlock = false)
+    (h1 : itemsWidth wf pre ≤ i) (h2 : i < itemsWidth wf pre + wf t) :
     ∃ buf len, ((pre.foldl (SpanWalk.step W) {}).step W (.elem e t)).next
-      = some (buf, len, getMarksAt ops obj (countElems pre)) := by
+      = some (buf, len, getMarksAt wf ops obj i) := by
   have hs := SpanWalk.foldl_msm W pre {} (by simp [SpanWalk.Synced, MarkSet.withoutUnmarks])
-  have hg : getMarksAt ops obj (countElems pre) = (pre.foldl (SpanWalk.step W) {}).marks := by
-    rw [(C25_value ops obj pre post e t h).1, hs.2, hs.1]
+  have hg : getMarksAt wf ops obj i = (pre.foldl (SpanWalk.step W) {}).marks := by
+    rw [(C25_value wf ops obj pre post e t i h h1 h2).1, hs.2, hs.1]
   simp only [SpanWalk.step, hb, Bool.false_eq_true, if_false]
   rw [hg]
   exact SpanWalk.pushStr_marks W _ _
@@ -90,20 +98,16 @@ def d20 : List Op :=
 example : (localMark (ow gOne .utf8 true) (d20.take 4) ⟨[0xaa], 5, []⟩ (.id ⟨1, [0xaa]⟩) 2 3 false true [0x62] (.bool true)).1
     = [d20[4], d20[5]] := by decide
 
-/-- C25, agreement of the three reads, is FALSE under UTF-8 / UTF-16 on the unchanged code (finding D20,
-    `sig=get_marks-element-ordinal`): `marks()` and `spans()` place the mark on unit range 2..3 ("a"), but
-    `get_marks(obj, 2)` — which counts elements, not units — reads the marks of "b": none; and
-    `get_marks(obj, 1)`, a unit inside "é", reports the mark. -/
-theorem C25_marks_agree_refuted :
+/-- the former D20 witness, now consistent: under UTF-8 `marks()` and `spans()` place the mark on unit range
+    2..3 ("a") and `get_marks` agrees at every unit index (0,1 = "é": none; 2 = "a": bold; 3 = "b": none);
+    under code points the mark is 1..2 -/
+example :
     marksOf (ow gOne .utf8 true) d20 (.id ⟨1, [0xaa]⟩) = [⟨[0x62], 2, 3, .bool true⟩] ∧
     spansOf (width .utf8) d20 (.id ⟨1, [0xaa]⟩) = [.text [0xC3, 0xA9] [], .text [0x61] [([0x62], .bool true)], .text [0x62] []] ∧
-    getMarksAt d20 (.id ⟨1, [0xaa]⟩) 2 = [] ∧
-    getMarksAt d20 (.id ⟨1, [0xaa]⟩) 1 = [([0x62], .bool true)] := by
+    (List.range 5).map (getMarksAt (ow gOne .utf8 true) d20 (.id ⟨1, [0xaa]⟩)) = [[], [], [([0x62], .bool true)], [], []] ∧
+    marksOf (ow gOne .cp true) d20 (.id ⟨1, [0xaa]⟩) = [⟨[0x62], 1, 2, .bool true⟩] ∧
+    (List.range 4).map (getMarksAt (ow gOne .cp true) d20 (.id ⟨1, [0xaa]⟩)) = [[], [([0x62], .bool true)], [], []] := by
   decide
-
-/-- under code points the same document reads consistently: mark 1..2, `get_marks(1)` = bold -/
-example : marksOf (ow gOne .cp true) d20 (.id ⟨1, [0xaa]⟩) = [⟨[0x62], 1, 2, .bool true⟩] ∧
-    getMarksAt d20 (.id ⟨1, [0xaa]⟩) 1 = [([0x62], .bool true)] ∧ getMarksAt d20 (.id ⟨1, [0xaa]⟩) 2 = [] := by decide
 
 /-- C25, "Text inserted at a mark boundary is covered exactly when the mark's expand setting says so" —
     PARTIAL (non-nested: exactly one mark op and no tombstone between the two visible neighbours; the
@@ -129,12 +133,57 @@ theorem C25_expand_boundary_partial (wf : Op → Nat) (ops : List Op) (target : 
 example : (insertQuery (ow gOne .utf8 true) d20 (.id ⟨1, [0xaa]⟩) 2).toOption.map (·.key) = some (.elem ⟨2, [0xaa]⟩) ∧
     (insertQuery (ow gOne .utf8 true) d20 (.id ⟨1, [0xaa]⟩) 3).toOption.map (·.key) = some (.elem ⟨3, [0xaa]⟩) := by decide
 
-/-- C25/C06 finding D5 (`sig=mark-error-leaves-op`): `mark(1, 100)` on "éab" fails with `InvalidIndex`
-    AFTER the begin op has been inserted; the op stays in the transaction (and, once committed, marks
-    everything from index 1 to the end of the text, now and in the future). -/
-theorem C25_mark_error_leaves_op :
-    (localMark (ow gOne .cp true) (d20.take 4) ⟨[0xaa], 5, []⟩ (.id ⟨1, [0xaa]⟩) 1 100 false true [0x62] (.bool true)).1
-      = [⟨⟨5, [0xaa]⟩, .id ⟨1, [0xaa]⟩, .elem ⟨2, [0xaa]⟩, true, .markBegin [0x62] (.bool true) false, []⟩] ∧
+/-- the former D5 witness (`mark(1, 100)` on "éab"): the call fails with `InvalidIndex` and appends NO op
+    (before fix d5de6e0cf the begin op stayed in the transaction).  In general a failing `mark` appends
+    nothing — PARTIAL: under the hypothesis `hend` that an end anchor which resolves before the begin op is
+    inserted still resolves afterwards (a zero-width op never makes an index invalid; not proved here,
+    the code relies on the same fact: its second `query_insert_at(end)?` comes after the insertion). -/
+theorem C25_mark_error_appends_nothing_partial (wf : Op → Nat) (ops : List Op) (t : Tx) (obj : ObjId) (start stop : Nat)
+    (before after : Bool) (name : Bytes) (value : Scalar) (err : EditErr)
+    (h : (localMark wf ops t obj start stop before after name value).2 = .error err)
+    (hend : start = stop ∨ ∀ q, insertQuery wf ops obj stop = .ok q →
+        ∀ b : Op, (insertQuery wf (ops ++ [b]) obj stop).isOk = true) :
+    (localMark wf ops t obj start stop before after name value).1 = [] := by
+  unfold localMark at h ⊢
+  cases hm : objMeta ops obj with
+  | error e => simp [hm]
+  | ok ty =>
+    simp only [hm] at h ⊢
+    by_cases hty : (ty != .text) = true
+    · simp [hty]
+    · simp only [hty, Bool.false_eq_true, if_false] at h ⊢
+      by_cases h0 : (start == stop && !before && !after) = true
+      · simp [h0]
+      · simp only [h0, Bool.false_eq_true, if_false] at h ⊢
+        cases hq0 : (if (start != stop) = true then (insertQuery wf ops obj stop).map (fun _ => ()) else Except.ok ()) with
+        | error e => simp
+        | ok u =>
+          simp only [hq0] at h ⊢
+          cases hq1 : insertQuery wf ops obj start with
+          | error e => simp
+          | ok q1 =>
+            simp only [hq1] at h ⊢
+            by_cases hse : (start == stop) = true
+            · simp [hse] at h
+            · simp only [hse, Bool.false_eq_true, if_false] at h ⊢
+              exfalso
+              have hne : start ≠ stop := by simpa using hse
+              rcases hend with he | he
+              · exact hne he
+              · have hne' : (start != stop) = true := by simp [hne]
+                simp only [hne', if_true] at hq0
+                cases hq : insertQuery wf ops obj stop with
+                | error e => simp [hq, Except.map] at hq0
+                | ok q =>
+                  have := he q hq ⟨t.nextId, obj, q1.key, true, .markBegin name value before, []⟩
+                  cases hq2 : insertQuery wf (ops ++ [⟨t.nextId, obj, q1.key, true, .markBegin name value before, []⟩]) obj stop with
+                  | error e => simp [hq2, Except.isOk, Except.toBool] at this
+                  | ok q2 =>
+                    simp only [hq2] at h
+                    by_cases hp : q2.pos > q1.pos <;> simp [hp] at h
+
+example :
+    (localMark (ow gOne .cp true) (d20.take 4) ⟨[0xaa], 5, []⟩ (.id ⟨1, [0xaa]⟩) 1 100 false true [0x62] (.bool true)).1 = [] ∧
     (match (localMark (ow gOne .cp true) (d20.take 4) ⟨[0xaa], 5, []⟩ (.id ⟨1, [0xaa]⟩) 1 100 false true [0x62] (.bool true)).2 with
       | .error e => some e | .ok _ => none) = some EditErr.index := by
   decide
@@ -144,7 +193,7 @@ theorem C25_mark_error_leaves_op :
     do not matter), and a historical read is the same function of the ancestors' ops (C07). -/
 theorem C25_converge {ops₁ ops₂ : List Op} (h : ops₁.Perm ops₂) (hd : DistinctIds ops₁) (obj : ObjId)
     (wf : Op → Nat) (W : Bytes → Nat) (k : Nat) :
-    marksOf wf ops₁ obj = marksOf wf ops₂ obj ∧ getMarksAt ops₁ obj k = getMarksAt ops₂ obj k ∧
+    marksOf wf ops₁ obj = marksOf wf ops₂ obj ∧ getMarksAt wf ops₁ obj k = getMarksAt wf ops₂ obj k ∧
     spansOf W ops₁ obj = spansOf W ops₂ obj := by
   have hi : items ops₁ obj = items ops₂ obj := by
     unfold items
